@@ -55,6 +55,9 @@ func Seq[T any](ord fp.Ord[T]) fp.Ord[fp.Seq[T]] {
 			if ord.Less(a[i], b[i]) {
 				return true
 			}
+			if ord.Less(b[i], a[i]) {
+				return false
+			}
 		}
 		return a.Size() < b.Size()
 	})
